@@ -406,6 +406,16 @@ func (g *inputGen) checkExpect(c *corrOut, prop, what string, chunks [][]byte, w
 	}
 }
 
+// checkExpectQuiet: like checkExpect but without emitting correspondence lines
+// (the same chunks were already emitted by the caller).
+func (g *inputGen) checkExpectQuiet(c *corrOut, prop, what string, chunks [][]byte, want []string) {
+	exp := strings.Join(want, " | ")
+	line, _, _ := implReaderLine(chunks, true)
+	if line != exp {
+		c.addFinding(finding{Property: prop, Class: "new", What: what, Input: readerLine(chunks, true), Expected: exp, Observed: line})
+	}
+}
+
 // runePayload concatenates the rune lists of all key messages of a line: a
 // coarse fingerprint of "which input characters were delivered, in order".
 func runePayload(line string) string {
@@ -468,7 +478,12 @@ func streamReader(c *corrOut, g *inputGen, r *rng, n int, thorough bool) {
 				evs = []event{g.evRunes(pad), e, g.evRunes(tailRunes)}
 			}
 			// ESC-prefixed things after a rune run are unambiguous; a CR etc. too.
-			g.checkExpect(c, "C15", "event "+e.kind+" against the read-buffer boundary", fullReads(concatEvents(evs)), expectedOf(evs, kr))
+			prop := "C15"
+			g.checkExpect(c, prop, "event "+e.kind+" against the read-buffer boundary", fullReads(concatEvents(evs)), expectedOf(evs, kr))
+			if e.kind == "sgr" || e.kind == "x10" {
+				// also C11: a report embedded among other events decodes to its mouse message and consumes exactly its own bytes
+				g.checkExpectQuiet(c, "C11", "mouse report ("+e.kind+") embedded in a long stream is not decoded as one mouse message", fullReads(concatEvents(evs)), expectedOf(evs, kr))
+			}
 		}
 	}
 	// C15/C09: a stream that is an exact multiple of the buffer, then EOF
